@@ -112,6 +112,7 @@ func isDigitsValidator(f *ssa.Function) bool {
 
 func runC15(c *report.Ctx) {
 	p := c.P
+	ruleNoFloatBetweenUserAndConverter(c)
 	s2a := fn(c, pkgAPI, "", "StringToAmount")
 	if s2a == nil {
 		return
